@@ -426,6 +426,10 @@ func connectiveC11(c *Ctx) {
 	}
 	for k, w := range want {
 		key := "RewriteRegexConditions$lit: branch " + k
+		if got[k].newOp == "" && got[k].concat == "" {
+			c.Unk("C11.connective", key, lit.Pos(), "the operator/connective choice is not an if/else that assigns both: not extracted")
+			continue
+		}
 		if got[k] != w {
 			c.Bad("C11.connective", key, lit.Pos(), fmt.Sprintf("new operator %q joined by %q; must be %q joined by %q", got[k].newOp, got[k].concat, w.newOp, w.concat))
 		} else {
